@@ -6,6 +6,7 @@
 (* verdict: "ok" under the required model, or a deviation that is listed in    *)
 (* Dev - printed, so that the check can name the known finding it used.        *)
 EXTENDS StoreFS, Json, IOUtils
+CONSTANT Judge
 VARIABLES l, cur
 T == ndJsonDeserialize(IOEnv.TRACE)
 E == T[l]
@@ -18,8 +19,20 @@ TCrash == /\ IsEv("Crash") /\ cur # <<>> /\ E.scenario = cur.scenario
              /\ v = "ok" \/ v \in Dev
              /\ (v # "ok" => PrintT(<<"DEV", v, E.scenario, E.k>>))
           /\ UNCHANGED cur
+\* A Fault event: operation k of the call FAILED (disk full on a flush, failed truncate, open or unlink) and the call
+\* went on.  C05: a call that could not persist its effect must not return CKR_OK (rv = OK => a fresh process sees the
+\* new state).  C09: a call that returned an error has changed nothing (a fresh process sees the old state).
+\* Judge says which of the two clauses this run decides ("ok", "err" or "both").
+Stored  == \/ E.rec = cur.new
+           \/ ("OkButNotStored" \in Dev /\ PrintT(<<"DEV", "OkButNotStored", E.scenario, E.k>>))
+Nothing == \/ E.rec = cur.old
+           \/ ("FaultNotAtomic" \in Dev /\ PrintT(<<"DEV", "FaultNotAtomic", E.scenario, E.k>>))
+TFault == /\ IsEv("Fault") /\ cur # <<>> /\ E.scenario = cur.scenario /\ UNCHANGED cur
+          /\ \/ ~E.hit
+             \/ (E.hit /\ E.rv = "OK" /\ (Judge \in {"ok", "both"} => Stored))
+             \/ (E.hit /\ E.rv # "OK" /\ (Judge \in {"err", "both"} => Nothing))
 TInit == l = 1 /\ cur = <<>> /\ TLCSet(1, 1)
-TNext == TLog \/ TCrash
+TNext == TLog \/ TCrash \/ TFault
 TSpec == TInit /\ [][TNext]_tvars
 TrackMax == IF l > TLCGet(1) THEN TLCSet(1, l) ELSE TRUE
 TraceAccepted == PrintT(<<"MAXL", TLCGet(1)>>)
